@@ -4,33 +4,38 @@ A *case* is a JSON-serialisable dict that fully determines the feature table X, 
 the optional rate series and the TradingEnvXY configuration:
 
     cal            'NYSE' | 'LSE' | 'SSE' | '24/7'
-    shape          'daily' (a row on every calendar day, closed days included) | 'exchange' (no rows on
+    shape          'daily' (rows on every calendar day, closed days included) | 'exchange' (no rows on
                    Saturdays/Sundays/holidays of `cal`, possibly further rows removed)   [informative]
-    y0             'YYYY-MM-DD' origin; every date below is an integer day offset from it
-    y_days         increasing day offsets of the rows of Y
-    x_days         increasing day offsets of the rows of X (may start before 0 / end elsewhere / be sparser)
-    rate_days      None (no rate series given) or increasing day offsets of the rate series (>= 2 rows)
+    y0             'YYYY-MM-DD' origin; every date below is an offset in days from it
+    y_days         increasing offsets of the rows of Y: integers for daily tables, multiples of 1/2 or 1/4
+                   for intraday tables (12-hourly / 6-hourly rows)
+    x_days         increasing offsets of the rows of X (may start before 0 / end elsewhere / be sparser / be
+                   intraday while Y is daily and vice versa)
+    rate_days      None (no rate series given) or increasing integer offsets of the rate series (>= 2 rows)
     ny, nx         number of asset columns ('A','B','C') and feature columns ('f0'..'f3')
     seed           integer selecting the values (counter-based splitmix64 stream, no RNG state)
-    y_p0           first price of each asset; y_vol the bound of one multiplicative daily move
+    y_p0           first price of each asset; y_vol the bound of one multiplicative move
     x_scale, x_offset, x_jump   per feature column: scale, offset, and [row, factor] regime change
     y_nan, x_nan   lists of [row, column] cells set to NaN
-    window, stride, transformer (None|'z-score'|'yeo-johnson'), transformer_end (None|day offset),
-    clip, spread, start, end (None|day offset), bound_fmt ('str'|'ts'),
-    folds          None or {'training-set': [d0, d1], 'test-set': [d2, d3]} (day offsets), fold = the one reset into,
+    window, stride, transformer (None|'z-score'|'yeo-johnson'), transformer_end (None|integer offset),
+    clip, spread, start, end (None|integer offset), bound_fmt ('str'|'ts'),
+    folds          None or {'training-set': [d0, d1], 'test-set': [d2, d3]} (offsets), fold = the one reset into,
     fold2          None or the fold of a second episode run on the same environment,
     episode_length None|int, steps_delay 0|1, max_long, max_short, margin,
     weights        list of target-weight vectors (cycled through the steps; applied only to quoted assets)
+    x_mode, intraday   [informative]
 
 `tables_from_case(case)` -> {'X': DataFrame, 'Y': DataFrame, 'rate': Series|None}
 `build_env(case, tables=None)` -> a fresh TradingEnvXY built from (copies of) the tables
 `cases(tier)` -> Hypothesis strategy of cases.  Preconditions of TradingEnvXY are met by construction:
 enough non-holiday price rows for 2*window warm-up rows plus the episode, folds with enough steps,
-rate without NaN and with >= 2 rows, X with at least 5 complete rows inside the transformer's fit range.
+rate without NaN and with >= 2 rows, X with 5 complete rows and Y with 3 returns of one asset inside
+the transformer's fit range.
 
 Nothing here imports the internals of tradingenv: only the public constructor is called.
 """
-from datetime import date, datetime, timedelta
+import math
+from datetime import date, timedelta
 
 import numpy as np
 import pandas as pd
@@ -109,12 +114,13 @@ def bell(seed, stream, n):
 # ------------------------------------------------------------------------------ case -> tables -> env
 
 def day(case, offset):
-    return pd.Timestamp(case["y0"]) + pd.Timedelta(days=int(offset))
+    """Timestamp of an offset (in days, possibly a multiple of 1/4) from the origin of the case."""
+    return pd.Timestamp(case["y0"]) + pd.Timedelta(hours=round(offset * 24))
 
 
 def index_of(case, days):
     t0 = pd.Timestamp(case["y0"])
-    return pd.DatetimeIndex([t0 + pd.Timedelta(days=int(d)) for d in days])
+    return pd.DatetimeIndex([t0 + pd.Timedelta(hours=round(d * 24)) for d in days])
 
 
 def tables_from_case(case):
@@ -198,10 +204,11 @@ _SPECIAL = {
     "SSE": ["2019-10-07", "2015-09-04", "2020-01-31", "2010-02-19", "2021-10-07"],
     "24/7": [],
 }
+_TRANSFORMERS = [None, "z-score", None, "z-score", "yeo-johnson", None, "z-score", None, "z-score", "z-score"]
 
 
-def _weekday(base, d):
-    return (base + timedelta(days=d)).weekday()
+def _expand(days, k):
+    return list(days) if k == 1 else [d + i / k for d in days for i in range(k)]
 
 
 @st.composite
@@ -209,10 +216,15 @@ def cases(draw, tier="quick"):
     cal = draw(st.sampled_from(["NYSE", "NYSE", "SSE", "SSE", "LSE", "24/7"]))
     hol = holidays(cal)
     shape = draw(st.sampled_from(["daily", "exchange", "exchange"]))
+    # rows per day: daily tables (most cases) or 12-/6-hourly rows in Y, in X or in both
+    sub = draw(st.sampled_from([1, 1, 1, 2, 1, 1, 4, 1]))
+    intraday = draw(st.sampled_from(["both", "y", "x"])) if sub > 1 else None
+    ky = sub if intraday in ("both", "y") else 1
+    kx = sub if intraday in ("both", "x") else 1
     if shape == "daily":
-        span = draw(st.integers(30, 150))
+        span = draw(st.integers(max(12, 30 // ky), 150 // ky))
     else:
-        span = draw(st.integers(48, 210))
+        span = draw(st.integers(max(20, 48 // ky), 210 // ky))
     # origin: put a closure somewhere inside the span (three cases out of four)
     how = draw(st.sampled_from(["anchor", "anchor", "special", "free"]))
     if how == "special" and _SPECIAL[cal]:
@@ -224,32 +236,36 @@ def cases(draw, tier="quick"):
         anchor = date(draw(st.integers(1996, 2023)), mth, dd)
     base = anchor - timedelta(days=draw(st.integers(6, span - 4)))
 
+    def on(d):      # calendar date of an offset (fractions of a day are dropped)
+        return base + timedelta(days=math.floor(d))
+
     def trading(d):
-        dt = base + timedelta(days=d)
+        dt = on(d)
         if cal == "24/7":
             return True
         return dt.weekday() < 5 and dt not in hol
 
-    # ---- Y rows
+    # ---- Y rows (dates first, then the rows of each date)
     if shape == "daily":
-        y_days = list(range(span))
+        yd = list(range(span))
     else:
-        y_days = [d for d in range(span) if trading(d)]
+        yd = [d for d in range(span) if trading(d)]
         extra = draw(st.sampled_from(["none", "none", "few", "block", "both"]))
-        if extra in ("few", "both"):
-            drop = set(draw(st.lists(st.integers(1, len(y_days) - 2), max_size=max(1, len(y_days) // 12), unique=True)))
-            y_days = [d for i, d in enumerate(y_days) if i not in drop]
-        if extra in ("block", "both"):
-            p = draw(st.integers(4, len(y_days) - 6))
+        if extra in ("few", "both") and len(yd) >= 16:
+            drop = set(draw(st.lists(st.integers(1, len(yd) - 2), max_size=max(1, len(yd) // 12), unique=True)))
+            yd = [d for i, d in enumerate(yd) if i not in drop]
+        if extra in ("block", "both") and len(yd) >= 24:
+            p = draw(st.integers(4, len(yd) - 6))
             ln = draw(st.integers(2, 9))
-            y_days = y_days[:p] + y_days[p + ln:]
+            yd = yd[:p] + yd[p + ln:]
+    y_days = _expand(yd, ky)
     ny = draw(st.integers(1, 3))
     n = len(y_days)
 
     # ---- X rows
     x_mode = draw(st.sampled_from(["same", "same", "range", "range", "sparse", "sparse-range"]))
     if x_mode == "same":
-        x_days = list(y_days)
+        xd = list(yd)
     else:
         if "range" in x_mode:
             xs = draw(st.sampled_from([0, -1, -7, 3, 11])) if draw(st.booleans()) else draw(st.integers(-60, 20))
@@ -259,8 +275,8 @@ def cases(draw, tier="quick"):
         if shape == "daily":
             pool = list(range(xs, xe))
         else:
-            # same shape rule over its own range; rows removed from Y inside the span are removed here too
-            ys = set(y_days)
+            # same shape rule over its own range; dates removed from Y inside the span are removed here too
+            ys = set(yd)
             pool = [d for d in range(xs, xe) if (d in ys if 0 <= d < span else trading(d))]
         if "sparse" in x_mode:
             if draw(st.booleans()):
@@ -272,10 +288,11 @@ def cases(draw, tier="quick"):
                 pool2 = [d for d, kp in zip(pool, keep) if kp]
             if len(pool2) >= 10:
                 pool = pool2
-        x_days = pool
-        if len(x_days) < 10:
-            x_days = list(y_days)
+        xd = pool
+        if len(xd) < 10:
+            xd = list(yd)
             x_mode = "same"
+    x_days = _expand(xd, kx)
     nx = draw(st.integers(1, 4))
     m = len(x_days)
 
@@ -295,14 +312,15 @@ def cases(draw, tier="quick"):
         x_nan = list(dict.fromkeys(list(x_nan) + [(r, c) for r in range(r0, min(m, r0 + ln))]))
     x_nan = sorted([list(t) for t in x_nan if not 3 <= t[0] <= 7])      # rows 3..7 of X stay complete
 
-    # ---- start / end bounds (day offsets; need not be row dates)
+    # ---- start / end bounds (whole dates; need not be row dates)
     start = end = None
     if n >= 50 and draw(st.integers(0, 3)) == 0:
-        start = y_days[draw(st.integers(1, n // 4))] - draw(st.integers(0, 2))
+        start = math.floor(y_days[draw(st.integers(1, n // 4))]) - draw(st.integers(0, 2))
     if n >= 50 and draw(st.integers(0, 3)) == 0:
-        end = y_days[n - 1 - draw(st.integers(1, n // 4))] + draw(st.integers(0, 2))
+        end = math.floor(y_days[n - 1 - draw(st.integers(1, n // 4))]) + draw(st.integers(0, 2))
 
-    # ---- dates on which a step is possible (model used only to keep the configuration valid)
+    # ---- rows on which a step is possible (a model used only to keep the configuration valid; it may
+    #      under-estimate: TradingEnvXY serves at least these rows)
     nan_cells = set(map(tuple, y_nan))
     lo = y_days[0] if start is None else start
     hi = y_days[-1] if end is None else end
@@ -312,22 +330,22 @@ def cases(draw, tier="quick"):
     all_nan = sum(dead)
     # rows after the last row with a price (within the bounds) are never served
     hi = max(d for d, dd in zip(y_days, dead) if lo <= d <= hi and not dd)
-    elig = [d for d in y_days if lo <= d <= hi and (base + timedelta(days=d)) not in hol]
+    elig = [d for d in y_days if lo <= d <= hi and on(d) not in hol]
     wmax = min(30, (len(elig) - all_nan - 6) // 2)
-    if wmax < 1:            # cannot happen with >= 30 rows unless NaN rows pile up: fall back to complete prices
+    if wmax < 1:            # NaN rows piled up: fall back to complete prices
         y_nan, nan_cells, all_nan = [], set(), 0
         wmax = max(1, min(30, (len(elig) - 6) // 2))
     window = draw(st.one_of(st.integers(1, 6), st.integers(1, 6), st.integers(2, 4), st.integers(7, 30)))
     window = max(1, min(window, wmax))
     stride = draw(st.one_of(st.none(), st.integers(1, window), st.integers(1, window)))
-    safe = 2 * window + all_nan + 1        # elig[safe] is certainly a step date
+    safe = 2 * window + all_nan + 1        # elig[safe] is certainly a step
     episode_length = draw(st.one_of(st.none(), st.none(), st.integers(1, 8)))
     need = 2 if episode_length is None else episode_length + 1
     if len(elig) - safe < need + 1:
         episode_length = None
         need = 2
 
-    transformer = draw(st.sampled_from([None] * 9 + ["z-score"] * 9 + ["yeo-johnson"] * 2))
+    transformer = draw(st.sampled_from(_TRANSFORMERS))
     # The fit range X.loc[:transformer_end] must contain rows 3..7 of X, and Y.loc[:transformer_end] at least
     # two log-returns of one asset (the reward scale is their standard deviation; with fewer the
     # constructor fails with AttributeError on the pinned tree -- reported, outside this property).
@@ -339,10 +357,10 @@ def cases(draw, tier="quick"):
     if te_min is None or te_min > hi:
         y_nan, nan_cells = [], set()
         te_min = y_days[3]
-    te_min = max(te_min, x_days[7])
+    te_min = math.ceil(max(te_min, x_days[7]))
     transformer_end = None
     if draw(st.booleans()):
-        transformer_end = draw(st.integers(te_min, max(te_min, y_days[-1])))
+        transformer_end = draw(st.integers(te_min, max(te_min, math.floor(y_days[-1]))))
     elif te_min > hi:           # default = `end`
         transformer_end = te_min
     clip = draw(st.sampled_from([5.0, 5.0, 2.5, 1.0, 0.5, 0.125, 3.3]))
@@ -369,28 +387,28 @@ def cases(draw, tier="quick"):
             bi = elig.index(b)
             # end of the test fold: far end, or just enough steps
             if draw(st.booleans()):
-                tend = y_days[-1] + draw(st.integers(0, 5))
+                tend = math.floor(y_days[-1]) + draw(st.integers(1, 5))
             else:
                 tend = elig[min(len(elig) - 1, bi + need - 1 + draw(st.integers(0, 10)))]
-            folds = {"training-set": [y_days[0] - draw(st.integers(0, 3)), b - 1], "test-set": [b, tend]}
-            train_steps = bi - safe
-            train_ok = train_steps >= need
+            folds = {"training-set": [math.floor(y_days[0]) - draw(st.integers(0, 3)), b - 1], "test-set": [b, tend]}
+            train_ok = sum(1 for d in elig[safe:bi] if d <= b - 1) >= need
             fold = draw(st.sampled_from(["test-set", "test-set", "test-set", "training-set"])) if train_ok else "test-set"
             if draw(st.integers(0, 2)) == 0:
                 fold2 = draw(st.sampled_from(["test-set", "training-set"])) if train_ok else "test-set"
     elif draw(st.integers(0, 3)) == 0:
         fold2 = "training-set"
 
-    # ---- rate
+    # ---- rate (daily or sparser, whole dates)
     rate_days = None
     rmode = draw(st.sampled_from(["none", "same", "same", "sparse", "shifted"]))
+    r_lo, r_hi = math.floor(y_days[0]), math.floor(y_days[-1])
     if rmode == "same":
-        rate_days = list(y_days)
+        rate_days = list(yd)
     elif rmode == "sparse":
         k = draw(st.integers(2, 9))
-        rate_days = [d for d in range(y_days[0] - draw(st.integers(0, 12)), y_days[-1] + 1) if d % k == 0]
+        rate_days = [d for d in range(r_lo - draw(st.integers(0, 12)), r_hi + 1) if d % k == 0]
     elif rmode == "shifted":
-        rate_days = list(range(y_days[0] + draw(st.integers(-10, 25)), y_days[-1] - draw(st.integers(0, 10))))
+        rate_days = list(range(r_lo + draw(st.integers(-10, 25)), r_hi - draw(st.integers(0, 10))))
     if rate_days is not None and len(rate_days) < 2:
         rate_days = None
 
@@ -403,7 +421,8 @@ def cases(draw, tier="quick"):
         min_size=1, max_size=5))
 
     return {
-        "cal": cal, "shape": shape, "y0": base.isoformat(), "y_days": y_days, "x_days": x_days, "x_mode": x_mode,
+        "cal": cal, "shape": shape, "intraday": intraday, "y0": base.isoformat(),
+        "y_days": y_days, "x_days": x_days, "x_mode": x_mode,
         "rate_days": rate_days, "ny": ny, "nx": nx,
         "seed": draw(st.integers(0, 2 ** 31 - 1)),
         "y_p0": [draw(st.sampled_from([1.5, 37.25, 100.0, 2500.0])) for _ in range(ny)],
